@@ -102,6 +102,12 @@ type failingDest struct {
 	// failNames: OpenFile of these names fails (the background write of that entry), nothing else does; the failing calls
 	// gather like those of a full disk
 	failNames map[string]bool
+	// holdName: OpenFile of this name (the background write of that entry) is held until OpenFile of another name has
+	// been called afterwards, or 150 ms
+	holdName string
+	holdMu   sync.Mutex
+	holding  bool
+	holdCh   chan struct{}
 }
 
 type failingFile struct {
@@ -126,6 +132,24 @@ func (d *failingDest) tick() error {
 }
 func (d *failingDest) Open(name string) (hackpadfs.File, error) { return d.fs.Open(name) }
 func (d *failingDest) OpenFile(name string, flag int, perm hackpadfs.FileMode) (hackpadfs.File, error) {
+	if d.holdName != "" {
+		d.holdMu.Lock()
+		if name == d.holdName && d.holdCh == nil {
+			d.holding, d.holdCh = true, make(chan struct{})
+			ch := d.holdCh
+			d.holdMu.Unlock()
+			select {
+			case <-ch:
+			case <-time.After(150 * time.Millisecond):
+			}
+		} else {
+			if d.holding && name != d.holdName {
+				d.holding = false
+				close(d.holdCh)
+			}
+			d.holdMu.Unlock()
+		}
+	}
 	if d.failNames[name] {
 		atomic.AddInt64(&d.pending, 1)
 		deadline := time.Now().Add(30 * time.Millisecond)
@@ -217,6 +241,7 @@ func c13Archives() []c13Archive {
 }
 
 func runC13(r *Rng, n int, replay string) {
+	defer runC13HeldWrites(800000)
 	archives := c13Archives()
 	id := 0
 	emitC := func(c *Case) { c.ID = id; id++; emit(c) }
@@ -648,4 +673,62 @@ func (h *hookCtx) Value(key interface{}) interface{} {
 		h.hook()
 	}
 	return h.Context.Value(key)
+}
+
+// runC13HeldWrites: the background write of one small entry is held (in the destination's OpenFile) until the reader has
+// gone on to the next entry -- after a large entry, after small ones, first or later in the archive.  Whatever the
+// overlap, every entry that can be opened afterwards holds its own complete bytes.
+func runC13HeldWrites(idBase int) {
+	id := idBase
+	fill := func(n int, b byte) []byte { return bytes.Repeat([]byte{b}, n) }
+	archives := [][]tEntry{
+		{{name: "big", perm: 0o644, data: fill(200*1024, 'x')}, {name: "a", perm: 0o644, data: fill(1000, 'A')}, {name: "b", perm: 0o644, data: fill(1000, 'B')}, {name: "c", perm: 0o600, data: fill(700, 'C')}},
+		{{name: "a", perm: 0o644, data: fill(1000, 'A')}, {name: "b", perm: 0o644, data: fill(900, 'B')}, {name: "big", perm: 0o644, data: fill(160*1024, 'x')}, {name: "c", perm: 0o600, data: fill(700, 'C')}, {name: "d", perm: 0o600, data: fill(10, 'D')}},
+		{{name: "big1", perm: 0o644, data: fill(154*1024, 'x')}, {name: "big2", perm: 0o644, data: fill(300*1024, 'y')}, {name: "a", perm: 0o644, data: fill(512, 'A')}, {name: "b", perm: 0o644, data: fill(513, 'B')}, {name: "c", perm: 0o644, data: fill(1, 'C')}},
+	}
+	for ai, es := range archives {
+		for _, e := range es {
+			if len(e.data) > 150*1024 {
+				continue
+			}
+			c := &Case{ID: id, Kind: "held-write", Trivial: true}
+			id++
+			c.Cells = []string{"held-write"}
+			dest := &failingDest{fs: newMem().(*mem.FS), failAt: -1, holdName: e.name}
+			tfs, err := hptar.NewReaderFS(context.Background(), bytes.NewReader(buildTar(es)), hptar.ReaderFSOptions{UnarchiveFS: dest})
+			if err != nil {
+				panic(err)
+			}
+			select {
+			case <-tfs.Done():
+			case <-time.After(10 * time.Second):
+				c.fail(fmt.Sprintf("archive %d, write of %q held: the reader never finished", ai, e.name), "held-write:hang")
+				emit(c)
+				continue
+			}
+			time.Sleep(2 * time.Millisecond)
+			c.Text = []string{fmt.Sprintf("archive %d (%d entries), the background write of %q held until the next entry's write begins; unarchive error: %v", ai, len(es), e.name, tfs.UnarchiveErr())}
+			for _, x := range es {
+				var got []byte
+				var rerr error
+				for try := 0; try < 50; try++ { // (the reader does not wait for its last background writes)
+					got, rerr = hackpadfs.ReadFile(tfs, x.name)
+					if rerr != nil || bytes.Equal(got, x.data) {
+						break
+					}
+					time.Sleep(2 * time.Millisecond)
+				}
+				if rerr == nil && !bytes.Equal(got, x.data) {
+					wrong := 0
+					for i := range got {
+						if i >= len(x.data) || got[i] != x.data[i] {
+							wrong++
+						}
+					}
+					c.fail(fmt.Sprintf("%s: %q opens with %d bytes of which %d are not its own (first byte %q, its own is %q)", c.Text[0], x.name, len(got), wrong, got[:1], x.data[:1]), "held-write:foreign-bytes")
+				}
+			}
+			emit(c)
+		}
+	}
 }
